@@ -2,8 +2,8 @@ package rules
 
 func init() {
 	reg("C10", &PropSpec{
-		Rules:       []Rule{r("O1", RuleO1), r("E3ii", RuleE3ii), r("D1", RuleD1), r("SO1", RuleSO1), r("PA1", RulePA1), r("K2p", RuleK2p), r("R4", RuleR4), r("BR1", RuleBR1), r("UP1", RuleUP1)},
-		Explanation: "The mechanisms that make declaration order immaterial are decided structurally: the schema library's typestate 'AddRule only before anything loads the schema' is respected for the shared user types - rules are added in a dedicated pass over all types that dominates every loading call (O1); work skipped by a run-wide visited set passes no caller-owned accumulator across the memo (E3ii); no order-sensitive map range (D1); macros, rules, tags and user types are all collected in compileCore before the catalog is built (SO1, stage order in the CFG of the pipeline). Not decided: permutation invariance of the catalog as a whole. Inside the allOf stage the user types are expanded before every other kind of schema and every expansion call is unconditional up to nil/notation tests (PA1); every keyword is visible to the description look-ahead (K2p). A directive is listed by the directive it names as Parent on every path (R4: a stale Parent lets the tags of a neighbouring block leak into a moved one); the build walk never consults the by-name collections it is still filling (BR1). The rule set is complete before the build walk starts (BR1 rules-complete); Update callbacks keep the element (UP1).",
+		Rules:       []Rule{r("O1", RuleO1), r("E3ii", RuleE3ii), r("D1", RuleD1), r("SO1", RuleSO1), r("PA1", RulePA1), r("K2p", RuleK2p), r("R4", RuleR4), r("BR1", RuleBR1), r("UP1", RuleUP1), r("H3", RuleH3)},
+		Explanation: "The mechanisms that make declaration order immaterial are decided structurally: the schema library's typestate 'AddRule only before anything loads the schema' is respected for the shared user types - rules are added in a dedicated pass over all types that dominates every loading call (O1); work skipped by a run-wide visited set passes no caller-owned accumulator across the memo (E3ii); no order-sensitive map range (D1); macros, rules, tags and user types are all collected in compileCore before the catalog is built (SO1, stage order in the CFG of the pipeline). Not decided: permutation invariance of the catalog as a whole. Inside the allOf stage the user types are expanded before every other kind of schema and every expansion call is unconditional up to nil/notation tests (PA1); every keyword is visible to the description look-ahead (K2p). A directive is listed by the directive it names as Parent on every path (R4: a stale Parent lets the tags of a neighbouring block leak into a moved one); the build walk never consults the by-name collections it is still filling (BR1). The rule set is complete before the build walk starts (BR1 rules-complete); Update callbacks keep the element (UP1). A slot of the catalog that one directive fills is assigned only behind a test that it is still empty, the occupied case being an error (H3): a slot silently overwritten - or kept from an earlier block - makes the result depend on which declaration comes last.",
 		Trusted:     trustedCommon,
 	})
 }
